@@ -421,7 +421,7 @@ static int cmd_exec(int argc, char **argv) {
   eng_first_line_matching(errpath, "rror", buf, sizeof buf);
   eng_find_lib_frame(errpath);
   printf("X class=%s prop=%s func=%s fate=%s site=0x%llx bt=%s world=%ld hash=%016llx detail=%s | %s\n", cls, prop, eng_top_lib_frame[0] ? eng_top_lib_frame : "-", fate_names[cr.fate], (unsigned long long)sim_shared->fail_site, (char *)SIM_SHARED_EXT + 200000, (long)sim_shared->aux[4], (unsigned long long)sim_shared->result_hash, sim_shared->note, buf);
-  unlink(errpath);
+  if (!getenv("M4SIM_KEEP_STDERR")) unlink(errpath);
   return 0;
 }
 
